@@ -206,6 +206,10 @@ func trailer(e *env, fn, ctor *core.Fn) ast.Expr {
 		c.Undecidedf("R5.trailer", key("layout"), fn.Decl.Pos(), "expected one 16-bit version write and one checksum write through the MultiWriter, found %d and %d", nver, nsum)
 		return nil
 	}
+	if !(ver.order == "LittleEndian" || ver.order == "BigEndian") || !(sum.order == "LittleEndian" || sum.order == "BigEndian") {
+		c.Undecidedf("R5.trailer", key("version-le16"), ver.call.Pos(), "byte order of the trailer writes is not one of binary.LittleEndian / binary.BigEndian")
+		return ver.val
+	}
 	c.Check("R5.trailer", key("version-le16"), ver.call.Pos(), ver.order == "LittleEndian", "the trailer version must be written little-endian (found binary."+ver.order+"): Redis and the tool's own checkers read it as a different number and refuse the payload")
 	c.Check("R5.trailer", key("checksum-le64"), sum.call.Pos(), sum.order == "LittleEndian", "the trailer CRC must be written little-endian (found binary."+sum.order+"): the payload is refused by RESTORE and by the tool's own checkers")
 	sp, _ := g.Find(sum.call)
